@@ -2,6 +2,7 @@
     specification [comb_f] puts, as tuples, in place of every list [l] at the axis; the theorems
     say it is exactly itertools.combinations(_with_replacement). *)
 From AwkV Require Import Layout Ops_Struct Proofs_C07.
+From AwkV Require Import Valid Types AtAxis Carry Proofs_Lists Proofs_ToList Proofs_Carry Proofs_AtAxis Proofs_AtAxisOps.
 
 Theorem combinations_result : forall n repl t l,
   comb_f n repl t l = Ok (VList (map VTup (combos repl n l))).
@@ -37,3 +38,11 @@ Print Assumptions combs_no_duplicates.
 Theorem combs_r_tuples_have_n : forall (l : list value) n t, In t (combs_r n l) -> length t = n.
 Proof. exact (fun l n t => combs_r_tuple_length n l t). Qed.
 Print Assumptions combs_r_tuples_have_n.
+
+(* refinement: the layout-level model (Record of IndexedArrays over the list content) computes
+   exactly the value-level specification (tuples of itertools combinations per list at the axis) *)
+Theorem combinations_refines_spec : forall n repl c axis vs,
+  Valid None c -> frag c = true -> to_list c = Ok vs ->
+  obs (comb_model n repl axis c) = comb_spec n repl axis (type_of c) vs.
+Proof. exact combinations_refines. Qed.
+Print Assumptions combinations_refines_spec.
